@@ -1,6 +1,9 @@
 package main
 
 import (
+	"os/exec"
+	"context"
+	"bytes"
 	"regexp"
 	"encoding/json"
 	"fmt"
@@ -24,6 +27,7 @@ type PropConfig struct {
 	Kinds       []string `json:"kinds,omitempty"`       // restrict to obligation kinds with these prefixes
 	Analyses    []AnalysisSpec `json:"analyses,omitempty"` // solver-free inventory analyses over the SSA call graph
 	Assumptions []string `json:"assumptions"`
+	Lemmas      []string `json:"lemmas,omitempty"` // Lean files (relative to /verif) proving the mathematical lemmas the spec states as axioms; re-checked in the thorough tier
 	Level       string   `json:"level"`
 	Notes       string   `json:"notes,omitempty"`
 }
@@ -723,6 +727,29 @@ func cmdCheck(args []string) int {
 				violations++
 			}
 			thorough["smoke_reports_listed_as_known_finding_of_another_property"] = elsewhere
+		}
+		// mathematical lemmas stated as axioms in the spec: their Lean proofs are re-checked
+		var lemmaReports []map[string]any
+		for _, lf := range pc.Lemmas {
+			ctx, cancel := context.WithTimeout(context.Background(), 300*time.Second)
+			cmd := exec.CommandContext(ctx, "lean", filepath.Join(vr, lf))
+			out, err := cmd.CombinedOutput()
+			cancel()
+			ok := err == nil && !bytes.Contains(out, []byte("sorry")) && !bytes.Contains(out, []byte("error"))
+			rep := map[string]any{"file": lf, "checker": "lean 4", "accepted": ok}
+			if !ok {
+				rep["output"] = string(out)
+				rp := filepath.Join(replayDir, "lemma_"+sanitize(lf)+".json")
+				os.MkdirAll(replayDir, 0o755)
+				bs, _ := json.MarshalIndent(rep, "", " ")
+				os.WriteFile(rp, bs, 0o644)
+				fmt.Printf("VIOLATION property=%s replay=%s reason=%q no-failing-input-found\n", id, rp, "the Lean proof of a lemma the spec states as an axiom is not accepted: "+lf)
+				violations++
+			}
+			lemmaReports = append(lemmaReports, rep)
+		}
+		if len(lemmaReports) > 0 {
+			thorough["lemmas"] = lemmaReports
 		}
 		cov["thorough"] = thorough
 	}
